@@ -60,6 +60,19 @@ NEEDS = {
  'C15c': ('get_always_apply looks only at the direct children of a nested operator', 'a skipped Compose with an always_apply leaf two or more operators deep'),
  'C17c': ('bbox_crop passes (crop_width, crop_height) where (crop_height, crop_width) is expected', 'Crop (also after PadIfNeeded: the inverse crop) with a window whose height != width, boxes'),
  'C19c': ('BBoxSafeRandomCrop d_start tests bw >= 1.0 instead of bd >= 1.0', 'boxes whose union spans the full width but not the full depth (or the reverse: NaN), erosion_rate = 0'),
+ # ---- fourth wave (told about all earlier changes; pointed at other classes, branches, helpers, samplers) ----
+ 'C01d': ('RandomSizedBBoxSafeCrop.apply resizes with self.interpolation (same edit as C06b, produced independently for C01)', 'RandomSizedBBoxSafeCrop with image order >= 1 and a multi-label mask'),
+ 'C02d': ('bbox_random_crop passes (cols, rows) to get_random_crop_coords', 'RandomCrop / RandomSizedCrop / box-safe crops with boxes on a frame with rows != cols'),
+ 'C03d': ('keypoint_shift_scale_rotate scales the shift by the input extents instead of the output frame', 'ShiftScaleRotate(crop_to_border=True) with a non-zero shift and an enlarged frame, keypoints'),
+ 'C05d': ('DataProcessor.postprocess strips the label fields before the final filter', 'label_fields with check_each_transform=False and an annotation removed by the final filter'),
+ 'C06d': ('CropAndPad.apply_to_mask passes its interpolation argument instead of INTER_NEAREST', 'CropAndPad(keep_size=True) with image order >= 1 and a multi-label mask'),
+ 'C07d': ('clamping_crop unpacks the shape as (w, h, d)', 'RandomCropNearBBox / RandomCropFromBorders on a frame with rows < cols'),
+ 'C08d': ('downscale (4-D branch) takes the inverse depth factor from the down-scaled width', 'Downscale on a non-cubic H x W x D x C image'),
+ 'C11d': ('_brightness_contrast_adjust skips the float32 copy for float64 images', 'RandomBrightnessContrast on a float64 image'),
+ 'C13d': ('Downscale._to_dict writes the two interpolation orders swapped', 'Downscale with different down / up orders inside a ReplayCompose (also to_dict / save / load)'),
+ 'C14d': ('CropAndPad._get_pad_value treats only a tuple of two as an interval', 'CropAndPad(pad_cval=(a, b)) after a JSON / YAML round trip (tuple becomes list)'),
+ 'C16d': ('SetPixelSpacing.apply_to_dicom writes (space_x, space_y) into the (row, column) spacing', 'SetPixelSpacing with space_x != space_y'),
+ 'C19d': ('RandomCropNearBBox pairs box axis i with max_part_shift[i] (x with the height fraction)', 'RandomCropNearBBox with a max_part_shift tuple whose first two entries differ'),
  'C20b': ('GridDropout loops k over range(height // unit_depth + 1)', 'GridDropout on a volume whose depth exceeds its height by a grid unit or more'),
 }
 detected = json.load(open(os.path.join(V, 'seeded', 'detected.json'))) if os.path.exists(os.path.join(V, 'seeded', 'detected.json')) else {}
